@@ -1,8 +1,11 @@
 """C06 linearity -- traversal, pairing and the decision predicates of the checker.
 
 R-SIB     the linearity pass looks at statements *and* the branch predicate of a block.
-R-C06.1   every call-node kind has a visitor; each visits the arguments and then reaches
-          `_reassign_inout_args` on every normal path (borrowed arguments are handed back).
+R-C06.1   every call-node kind has a visitor; `visit_GlobalCall` / `visit_LocalCall` are interpreted with their helpers and the real
+          Scope on calls with one or two place arguments over two variables (the same place may be passed twice), owned /
+          borrowed parameters: a place already used -- also by an earlier argument of the same call -- is rejected, afterwards
+          exactly the owned arguments are used and borrowed ones are available again (c06_calls.py); the other call kinds visit
+          their arguments and then reach `_reassign_inout_args` on every normal path (CFG pairing).
 R-C06.2   decision predicates, by interpretation of the whole functions with the real `Scope` methods:
           per block (c06_place.py):  visit_PlaceNode on {borrowed or not} x 5 kinds of use x {used before} x {copyable}:
                       rejected iff (borrowed and not a re-borrow) or (used before and not copyable), else the use is recorded;
@@ -79,7 +82,11 @@ def run(ctx: Ctx) -> None:
     # ------------------------------------------------------------ R-C06.1
     members = union_members(idx, "guppylang_internals.nodes", "AnyCall")
     ctx.floor("R-C06.1", "AnyCall members", len(members), 5)
+    from . import c06_calls
+    calls_decided = c06_calls.run(ctx)  # visit_GlobalCall / visit_LocalCall interpreted with the same place passed twice
     for m in members:
+        if calls_decided and m in ("GlobalCall", "LocalCall"):
+            continue  # (their must-call pairing shape is the fallback)
         v = chk.methods.get(f"visit_{m}")
         key = f"{chk.qualname}.visit_{m}"
         if v is None:
